@@ -154,6 +154,11 @@ pub fn jobs(ctx: &Ctx) -> Vec<Case> {
                 for kk in 0..4 {
                     push("name-with-blanks", 0, kk, 0);
                 }
+                // the format is decided by the builder that is asked, never by the file name: a PNG written to names ending in
+                // .svg / .SVG / .jpg / nothing, an SVG written to a name ending in .png (k = which name)
+                for kk in 0..5 {
+                    push("foreign-extension", 0, kk, 0);
+                }
                 // the bare name "-" is a file name like any other (k=0: nothing there yet; k=1: a directory of that name)
                 for kk in 0..2 {
                     push("name-dash", 0, kk, 0);
@@ -255,6 +260,7 @@ pub fn observe(ctx: &Ctx, st: &mut Stats, c: &Case, idx: usize) {
             let _ = std::os::unix::fs::symlink(&real, &p);
             p
         }
+        "foreign-extension" => dir.join(if c.png { ["out.svg", "out.SVG", "picture.jpg", "out", "out.png.svg"][c.k % 5] } else { ["out.png", "out.PNG", "out.txt", "out", "out.svg.png"][c.k % 5] }),
         "name-dash" => {
             if c.k == 1 {
                 let _ = std::fs::create_dir_all(dir.join("-"));
@@ -400,6 +406,9 @@ pub fn observe(ctx: &Ctx, st: &mut Stats, c: &Case, idx: usize) {
                 if c.fault == "after-earlier-write" {
                     st.count("writes_after_an_earlier_write_in_the_same_process_exact", 1);
                 }
+                if c.fault == "foreign-extension" {
+                    st.count("files_with_an_extension_of_another_format_written_exactly", 1);
+                }
                 if c.fault == "relative-image" {
                     st.count("relative_image_references_with_output_in_another_directory_exact", 1);
                 }
@@ -522,7 +531,7 @@ pub fn run(ctx: &Ctx) -> Report {
     st.sets.remove("unreached");
     let mut rep = Report::new(
         st,
-        "cases = {SVG, PNG} x versions {1,7,40} (thorough: all 40) x option sets x fault classes: none; destination already exists (6 MiB longer file, 5-byte shorter file, symbolic link to a longer file, longer file + short writes): Ok must leave exactly the rendering, no stale tail; SVG documents padded (through the image string) to exactly 4096, 8191, 8192, 8193, 16384, 32768, 65535, 65536, 65537, 131072, 196608, 262144 bytes, also under short writes; file names that begin or end with white space (the named file, not a trimmed one, must hold the bytes); the bare relative name \"-\" (a file of that name must hold the bytes; a directory of that name is an error); an embedded image given as a relative path with a real image of that name in the working directory, next to the output file (another directory), or different ones in both; the same process has just written another rendering to the same or to another path (identical / same symbol with one size-deciding option changed / bigger symbol / other colour); real faults: missing directory (ENOENT), path is a directory (EISDIR), parent is a regular file (ENOTDIR), over-long name (ENAMETOOLONG), paths without a file-name component (dir/., dir/sub/.., dir/x/.., the empty path), an absolute path with a blank in front (a relative path into a missing directory), /dev/full (ENOSPC at write time); injected by an LD_PRELOAD shim scoped to the case's scratch directory: create fails with EACCES/EROFS/EMFILE, first write fails with ENOSPC/EIO/EDQUOT, k-th write of a chunked stream fails (k in 2,3,5,9; 1024-byte chunks; 7-byte chunks), every write short (7 / 4096 bytes), EINTR on every other write (with and without short writes); each case runs to_file in a child process; the shim logs every interception and every fault actually DELIVERED; oracle: Ok(()) => the file's bytes equal the in-memory rendering computed in the same child; a delivered hard fault => Err(_) converted through ConvertError::from, normal exit, no panic; only benign perturbations => Ok with full content; a configured fault that was never reached is counted separately and is not a pass for the error half; distinct key = case; every case non-trivial",
+        "cases = {SVG, PNG} x versions {1,7,40} (thorough: all 40) x option sets x fault classes: none; destination already exists (6 MiB longer file, 5-byte shorter file, symbolic link to a longer file, longer file + short writes): Ok must leave exactly the rendering, no stale tail; SVG documents padded (through the image string) to exactly 4096, 8191, 8192, 8193, 16384, 32768, 65535, 65536, 65537, 131072, 196608, 262144 bytes, also under short writes; file names that begin or end with white space (the named file, not a trimmed one, must hold the bytes); names whose extension belongs to another format (a PNG written to out.svg, an SVG written to out.png: the builder decides the format); the bare relative name \"-\" (a file of that name must hold the bytes; a directory of that name is an error); an embedded image given as a relative path with a real image of that name in the working directory, next to the output file (another directory), or different ones in both; the same process has just written another rendering to the same or to another path (identical / same symbol with one size-deciding option changed / bigger symbol / other colour); real faults: missing directory (ENOENT), path is a directory (EISDIR), parent is a regular file (ENOTDIR), over-long name (ENAMETOOLONG), paths without a file-name component (dir/., dir/sub/.., dir/x/.., the empty path), an absolute path with a blank in front (a relative path into a missing directory), /dev/full (ENOSPC at write time); injected by an LD_PRELOAD shim scoped to the case's scratch directory: create fails with EACCES/EROFS/EMFILE, first write fails with ENOSPC/EIO/EDQUOT, k-th write of a chunked stream fails (k in 2,3,5,9; 1024-byte chunks; 7-byte chunks), every write short (7 / 4096 bytes), EINTR on every other write (with and without short writes); each case runs to_file in a child process; the shim logs every interception and every fault actually DELIVERED; oracle: Ok(()) => the file's bytes equal the in-memory rendering computed in the same child; a delivered hard fault => Err(_) converted through ConvertError::from, normal exit, no panic; only benign perturbations => Ok with full content; a configured fault that was never reached is counted separately and is not a pass for the error half; distinct key = case; every case non-trivial",
     );
     rep.level = "fault_enumeration";
     rep.expected_sets = vec![("fault_classes", 21), ("fault_class_x_format", 40)];
